@@ -481,6 +481,11 @@ def run(ctx: core.Ctx) -> None:
                         "points": [{k: v for k, v in p.items() if k not in ("o", "kind")}
                                    for p in pts[:: max(1, len(pts) // 3)]][:4]})
 
+    # per-call statement of the property under concurrent use (Reentrant.tla): the same calls from several threads at once
+    from ..drivers import threads  # noqa: PLC0415
+
+    threads.clause(ctx, ['gas_props', 'oil_water'])
+
 
 def replay(ctx: core.Ctx, obj: dict) -> None:
     describe(ctx)
